@@ -480,7 +480,8 @@ fn fresh_replay(path: &str) -> Result<Option<String>, String> {
             return Ok(Some(s.to_string()));
         }
     }
-    if !out.status.success() && out.status.code().is_none() {
+    if !out.status.success() && (out.status.code().is_none() || out.status.code() == Some(101) || out.status.code() == Some(134)) {
+        // killed by a signal (abort) or died of an uncaught panic inside a library call
         return Ok(Some("abort".into()));
     }
     Ok(None)
@@ -989,24 +990,7 @@ fn cmd_replay_raw(args: &[String]) -> i32 {
 fn census_replay(prop: usize, pid_s: &str, seed: u64, sig: &str, a: (u8, u64, u64, u64), b: (u8, u64, u64, u64)) -> Result<String, String> {
     let locate = |x: (u8, u64, u64, u64)| -> Option<String> {
         let out = run_one(seed, prop, x.0 == 1, x.1);
-        // re-execute with root recording and look for the key fingerprint among server positions
-        let r = replay(&out.script, armed_for(prop), true);
-        let mut cands: Vec<String> = r.roots.iter().flatten().cloned().collect();
-        for st in out.script.iter() {
-            if let ops::Op::Pair { a, b } = &st.op {
-                cands.push(a.clone());
-                cands.push(b.clone());
-            }
-        }
-        for f in cands.iter() {
-            if let Some(p) = model::Pos::from_fen(f) {
-                let kb = p.key_beside();
-                if rng::fp64(&kb) == x.2 && rng::fp64b(&kb) == x.3 {
-                    return Some(f.clone());
-                }
-            }
-        }
-        None
+        replay_watch(&out.script, armed_for(prop), (x.2, x.3))
     };
     let fa = locate(a).ok_or("position A not found by re-execution")?;
     let fb = locate(b).ok_or("position B not found by re-execution")?;
@@ -1050,7 +1034,7 @@ fn cmd_replay(args: &[String]) -> i32 {
         // run in a child so that the abort is observed, not suffered
         let st = Command::new(exe()).args(["replay-raw", "--file", path]).status();
         return match st {
-            Ok(s) if s.code().is_none() || s.code() == Some(134) => {
+            Ok(s) if s.code().is_none() || s.code() == Some(134) || s.code() == Some(101) => {
                 println!("VIOLATION property={} replay={}", rf.property, path);
                 println!("  signature: {}", rf.signature);
                 println!("  the replay aborted the process inside a library call, as recorded");
